@@ -257,6 +257,19 @@ Step(S, c) == IF c.cmd \in RangeOf(S.delayed) THEN [S EXCEPT !.stored = Append(@
 RECURSIVE Fold(_, _)
 Fold(S, cs) == IF cs = <<>> THEN S ELSE Fold(Step(S, Head(cs)), Tail(cs))
 
+\* ---- which commands concern which target / variable ---------------------------------------------------------
+\* the targets a command names (as subject) and the variables it writes
+Subjects(c) ==
+    CASE c.cmd \in {"add_library", "add_executable", "add_custom_target", "add_dependencies"} \cup TargetCommands ->
+           IF c.args # <<>> THEN RangeOf(c.args[1]) ELSE {}
+      [] c.cmd = "set_property" ->
+           LET pi == IndexOf(c.args, Kw("PROPERTY")) IN
+           IF pi = 0 THEN {} ELSE RangeOf(Flat(SubSeq(c.args, 2, pi - 1))) \ {"APPEND", "APPEND_STRING"}
+      [] c.cmd = "set_target_properties" ->
+           LET pi == IndexOf(c.args, Kw("PROPERTIES")) IN IF pi = 0 THEN {} ELSE RangeOf(Flat(SubSeq(c.args, 1, pi - 1)))
+      [] OTHER -> {}
+VarsOf(c) == IF c.cmd \in {"set", "unset"} /\ c.args # <<>> THEN RangeOf(c.args[1]) ELSE {}
+
 \* ---- what an observer can see -----------------------------------------------------------------------
 \* variables through Lookup; per target: kind, imported flag, the non-empty properties, dependencies, commands
 ObsTarget(T) == [type |-> T.type, imp |-> T.imp, props |-> T.props, deps |-> T.deps, cmds |-> T.cmds, wd |-> T.wd]
